@@ -476,7 +476,7 @@ def _assemble_once(seed, f, prevlay, header):
             if f.kind == "ent_dangling":
                 ent[n] = (1, pl.size + 1000, 0)
             elif f.kind == "ent_other":
-                ent[n] = (1, ent[others[0]][1], 0)
+                ent[n] = (1, ent[others[0]][1] if others else 9, 0)
             elif f.kind == "ent_mid":
                 ent[n] = (1, ent[n][1] + 3, 0) if ent[n][0] == 1 else (1, 9, 0)
             elif f.kind == "ent_free":
@@ -486,9 +486,9 @@ def _assemble_once(seed, f, prevlay, header):
             elif f.kind == "ent_in_missing":
                 ent[n] = (2, top + 30, 0)
             elif f.kind == "ent_in_nonstream":
-                ent[n] = (2, (nonstream or others)[0], 0)
+                ent[n] = (2, (nonstream or others or [1])[0], 0)
             elif f.kind == "ent_idx_big":
-                ent[n] = (2, ent[n][1] if ent[n][0] == 2 else (stm_id or others[0]), 200)
+                ent[n] = (2, ent[n][1] if ent[n][0] == 2 else (stm_id or (others or [1])[0]), 200)
             else:
                 raise MachineryError("faultdoc: unknown xref entry fault %r" % f.kind)
             return ent
